@@ -1,5 +1,13 @@
 """The claims table. Every property of properties.jsonl is either claimed here or listed not-applicable."""
 
+E2_TECH = ("symbolic execution of the crate's MIR (own executor 'mirse' over `rustc -Zunpretty=mir` of the current tree) with z3: "
+           "script shapes enumerated, every number symbolic, obligations decided by the solver, counterexamples replayed natively")
+E2_NOTE = ("Trusted base: the MIR interpreter and its models of std/tai_time calls (listed per run in the evidence), validated on every run by "
+           "differential concrete runs against the real crate through its public API (harness/native/verif_runner.rs). "
+           "Environment model: the executor runs every spawned future to completion inside run() (property C04 is assumed, not checked), "
+           "leaf futures are opaque tokens, the clock is scripted. Bounded: script shapes and step_until iterations as stated in the evidence; "
+           "a solver counterexample becomes a VIOLATION only after it reproduces on the real crate.")
+
 
 def fill(claim, na):
     claim("C20", "E1 kani-overlay",
@@ -11,8 +19,43 @@ def fill(claim, na):
           "no allocation failure. Not decided yet: the indexed queue (IndexedPriorityQueue) — CBMC needs >200 s per 6-operation shape; "
           "it is being moved to the MIR engine.",
           "DESIGN.md §5 C20")
+    claim("C01", "E2 mirse", E2_TECH,
+          "For every enumerated script of scheduling and stepping commands and EVERY value of the start time, deadlines, periods and targets, "
+          "the real step/step_until/process/schedule code: never moves time backwards, advances step() to the earliest pending non-cancelled "
+          "deadline, leaves step_until at its target, executes each action exactly once with the handler reading its deadline, in chronological "
+          "order, and keeps every pending action strictly in the future.", E2_NOTE, "DESIGN.md §5 C01")
+    claim("C07", "E2 mirse", E2_TECH,
+          "With the executor model running the futures spawned for one step in EVERY order, actions of one origin due at the same (symbolic) "
+          "time are executed in scheduling order — which can only hold through the SeqFuture the real step_to_next_bounded builds (its real "
+          "poll is interpreted) and the (key, epoch) order of the queue.", E2_NOTE +
+          " The BinaryHeap is specified as 'a maximal element w.r.t. the element type's own partial_cmp' (the crate's Item::cmp is interpreted).",
+          "DESIGN.md §5 C07")
+    claim("C08", "E2 mirse", E2_TECH,
+          "A request is accepted iff deadline > now and period != 0 (all kinds, absolute/relative, also from handlers during a step); accepted "
+          "requests fire at their deadline; every stepping call returns (unwinding assertion on the loops of one step).",
+          E2_NOTE + " Race-freedom with real scheduling threads is not executed; see DESIGN.md for the structural lock-discipline obligation.",
+          "DESIGN.md §5 C08")
+    claim("C09", "E2 mirse", E2_TECH,
+          "Keyed one-shot/periodic actions cancelled (through a clone of the key, by dropping an AutoActionKey, by a handler) before the due "
+          "step never execute and no later occurrence does; cancelling after execution or twice changes nothing; other actions fire as in C01.",
+          E2_NOTE + " The in-model re-check of send_keyed_event lives in a coroutine and is represented by the environment model.",
+          "DESIGN.md §5 C09")
+    claim("C10", "E2 mirse", E2_TECH,
+          "Every executed occurrence k of a periodic action happens at t0 + k*p exactly once, the first non-executed one lies beyond the reached "
+          "time, for every partition of the horizon into step/step_until commands and every (symbolic) t0, p, targets.", E2_NOTE, "DESIGN.md §5 C10")
+    claim("C11", "E2 mirse", E2_TECH,
+          "Reduced scope: a handler panic is reported as Panic{model} with the right model, a lag above the tolerance as OutOfSync(lag); after "
+          "such a fatal error every further step/step_until/process returns Terminated without writing the time, calling the clock, spawning or "
+          "running anything (empty and non-empty queue); InvalidDeadline does not terminate.",
+          E2_NOTE + " NOT decided: Deadlock/MessageLoss/NoRecipient/Timeout classification and how the executors produce Panic (catch_unwind, "
+                    "model-id capture, helper thread).", "DESIGN.md §5 C11")
+    claim("C18", "E2 mirse", E2_TECH,
+          "Every move to a new time is preceded by exactly one synchronize(new time), before any computation for that time; arguments never "
+          "decrease; a lag above the (symbolic) tolerance fails the call with OutOfSync before model code of that time runs; without a "
+          "tolerance lags are ignored — for every scripted clock answer sequence up to length 3.",
+          E2_NOTE + " SimInit::init's synchronize(start time) is outside the driver-logic world.", "DESIGN.md §5 C18")
     pending = "check not built yet in this round (planned, see DESIGN.md §5); not claimed until it runs"
-    for p in ["C01", "C02", "C03", "C05", "C06", "C07", "C08", "C09", "C10", "C11", "C12", "C13", "C14", "C15", "C17", "C18", "C19"]:
+    for p in ["C02", "C03", "C05", "C06", "C12", "C13", "C14", "C15", "C17", "C19"]:
         na(p, pending)
     na("C04", "The property is about the multi-threaded executor's idle/park hand-off on real threads (st3, parking); Kani has no "
               "threads and the MIR engine has no model of blocking primitives; the single-threaded remainder would not justify the claim.")
